@@ -273,7 +273,11 @@ def run(tier, seed, replay=None):
                 fs = node_leg_monitor(it, r)
                 nclean += 0 if fs else 1
                 for sig, text in fs:
-                    ck.fail(sig, text, {"input": it, "impl": {k: v for k, v in r.items() if k != "tail"}})
+                    still, r2 = nlrun.confirmed(binary, it, node_leg_monitor, sig, "c06")
+                    if not still:
+                        ck.notes["unconfirmed_node_level_failures"] = ck.notes.get("unconfirmed_node_level_failures", 0) + 1
+                        continue
+                    ck.fail(sig, text, {"input": it, "impl": {k: v for k, v in r2.items() if k != "tail"}})
             ck.notes["node_level_leg"] = {"scenarios": len(items), "clean": nclean}
         except HarnessError as e:
             ck.tie("node-level leg runs", False, str(e)[-800:])
